@@ -1256,6 +1256,10 @@ class Interp:
             et = t[2][0] if t[0] == "adt" and t[2] else None
             cap = self.load_ref(s, args[0]) if args else C(0)
             return [(s, ("vec", et, C(0), ("empty",), cap))]
+        if krate == "alloc" and name == "from_elem" and len(args) == 2:
+            t = self.ty(frame, e["ty"])
+            et = t[2][0] if t[0] == "adt" and t[2] else None
+            return [(s, ("vec", et, self.load_ref(s, args[1]), ("repeat", self.load_ref(s, args[0]))))]
         if krate == "alloc" and name == "set_len" and len(args) == 2:
             tgt = args[0]
             cur = self.load_ref(s, tgt)
@@ -1323,6 +1327,12 @@ class Interp:
         lv = tuple(self.load_ref(s, a) for a in args)
         if any(self.mentions_backend(a) for a in lv):
             s.events.append(("UnknownBackendUse", callee, sp))
+        # mutation of by-reference state through &mut by unknown code: recorded as a store
+        for i, (a, ae) in enumerate(zip(args, e["args"])):
+            if ae.get("k") == "Borrow" and ae.get("m") and not (isinstance(a, tuple) and a and a[0] == "mref"):
+                la = lv[i]
+                if isinstance(la, tuple) and la and la[0] in ("field", "self", "param", "backend"):
+                    s.events.append(("Store", la, (("m", 0, name),), tuple(x for j, x in enumerate(lv) if j != i)))
         # mutation of locals through &mut by unknown code
         for a in args:
             if isinstance(a, tuple) and a and a[0] == "mref":
